@@ -128,7 +128,7 @@ def run_model(path, frames, limit, wal=None):
     return out
 
 
-def run(ctx, per_db_quick=130, per_db_thorough=2500):
+def run(ctx, per_db_quick=130, per_db_thorough=600):
     sc = C.Scratch()
     try:
         r = ctx.rng
